@@ -128,6 +128,11 @@ impl Broker {
 
     pub fn send(&mut self, tr: &mut Transport, p: Packet) {
         let bytes = rc::encode(&p);
+        if bytes.len() as u64 > self.client_max_packet as u64 && !matches!(p, Packet::ConnAck { .. }) {
+            // a conformant broker never exceeds the client's Maximum Packet Size
+            self.skipped += 1;
+            return;
+        }
         self.queue(tr, Some(p), bytes, None);
     }
 
@@ -254,7 +259,12 @@ impl Broker {
             }
             props.extend(p.extra.iter().cloned());
         }
-        Packet::ConnAck { session_present: sp, reason, props }
+        let full = Packet::ConnAck { session_present: sp, reason, props };
+        if rc::encode(&full).len() as u64 > self.client_max_packet as u64 {
+            // a conformant broker never exceeds the client's Maximum Packet Size
+            return Packet::ConnAck { session_present: sp, reason, props: vec![] };
+        }
+        full
     }
 
     fn handshake(&mut self, tr: &mut Transport, clean_start: bool) {
